@@ -138,6 +138,8 @@ pub struct Case<'a> {
     pub displaced: Option<usize>,
     /// the reader has already buffered everything and seen the end of the input before the scan
     pub complete: bool,
+    /// the source ends with a permanent I/O error instead of an end-of-input answer
+    pub fault: bool,
 }
 
 /// Serves a fixed prefix (as much as fits per read, never mixed with the inner source), then the
@@ -168,7 +170,7 @@ pub struct Outcome {
 }
 
 pub fn exec(case: &Case, forced: Vec<(u32, u32)>) -> (Vec<(u32, u32)>, Option<String>, Outcome) {
-    let cfg = SourceCfg::new(case.s, Grain::Choose(Menu::AllSizes)).record(true);
+    let cfg = SourceCfg::new(case.s, Grain::Choose(Menu::AllSizes)).record(true).fault_at(if case.fault { Some(case.s.len()) } else { None });
     let (source, st) = ScriptedSource::new(cfg, forced);
     let (expected, need) = reference(case.scan, case.s, case.offset);
     let mut problems = Vec::new();
@@ -217,7 +219,8 @@ pub fn exec(case: &Case, forced: Vec<(u32, u32)>) -> (Vec<(u32, u32)>, Option<St
             } else {
                 reference_reads(case.s, &st.log, case.chunk, need, pre_calls.get())
             };
-            if (st.pos, st.read_calls, st.eof_returned) != (pos, calls, eofs) {
+            // a terminal error answers the same question as an end-of-input answer
+            if (st.pos, st.read_calls, st.eof_returned + st.err_returned) != (pos, calls, eofs) {
                 let kind = if st.read_calls > calls { "over-read" } else { "under-read" };
                 problems.push((
                     kind.into(),
@@ -268,8 +271,14 @@ fn patterns_for(s: &[u8], offset: usize) -> Vec<Vec<u8>> {
     }
     if offset <= s.len() {
         let rest = &s[offset..];
-        for k in 1..=rest.len().min(4) {
-            pats.push(rest[..k].to_vec());
+        for k in [1usize, 2, 3, 4, 7, 8, 9, 12, 15, 16, 17] {
+            if k <= rest.len() {
+                pats.push(rest[..k].to_vec());
+                // the same length with the last byte wrong
+                let mut p = rest[..k].to_vec();
+                p[k - 1] ^= 1;
+                pats.push(p);
+            }
         }
         let mut longer = rest.to_vec();
         longer.push(b'x');
@@ -294,6 +303,7 @@ fn replay_value(case: &Case, taken: &[(u32, u32)]) -> Value {
         "chunk": case.chunk,
         "displaced": case.displaced,
         "complete": case.complete,
+        "fault": case.fault,
         "choices": taken.iter().map(|(c, n)| json!([c, n])).collect::<Vec<_>>(),
     })
 }
@@ -328,23 +338,31 @@ fn check_string_variants(s: &[u8], offsets: &[usize], chunks: &[usize], bound: O
                 // the same scan on a reader that has already seen the end of the input (default
                 // schedule only: how the data arrived before does not matter)
                 if displaced.is_none() && property == "C16" && offset <= s.len() + 1 {
-                    let case = Case { s, offset, scan, chunk, displaced: None, complete: true };
-                    let (taken, diverged, outcome) = exec(&case, vec![]);
-                    report.evaluations += 1;
-                    report.count("scans_on_a_reader_that_has_seen_the_end", 1);
-                    if let Some(d) = diverged {
-                        report.machinery_errors.push(format!("C16 nondeterminism: {d}"));
-                    }
-                    for (kind, what) in outcome.problems {
-                        report.violation(
-                            format!("scanner/{}/at-end/{}", scan.name(), kind),
-                            format!("{}({:?}, offset {}{}) chunk {} on a reader that has already seen the end of the input: {}", scan.name(), show(s), offset, if let Scan::Fixed(p) = scan { format!(", pattern {:?}", show(p)) } else { String::new() }, chunk, what),
-                            replay_value(&case, &taken),
-                            (s.len() * 100) as u64,
-                        );
+                    // (reader already complete?, source ends with an error instead of end of input?)
+                    for (complete, fault) in [(true, false), (false, true), (true, true)] {
+                        let case = Case { s, offset, scan, chunk, displaced: None, complete, fault };
+                        let (taken, diverged, outcome) = exec(&case, vec![]);
+                        report.evaluations += 1;
+                        report.count("scans_on_a_finished_or_failing_reader", 1);
+                        if let Some(d) = diverged {
+                            report.machinery_errors.push(format!("C16 nondeterminism: {d}"));
+                        }
+                        let label = match (complete, fault) {
+                            (true, false) => "at-end",
+                            (false, true) => "failing-source",
+                            _ => "after-failure",
+                        };
+                        for (kind, what) in outcome.problems {
+                            report.violation(
+                                format!("scanner/{}/{label}/{}", scan.name(), kind),
+                                format!("{}({:?}, offset {}{}) chunk {} ({}): {}", scan.name(), show(s), offset, if let Scan::Fixed(p) = scan { format!(", pattern {:?}", show(p)) } else { String::new() }, chunk, match (complete, fault) { (true, false) => "reader has already seen the end of the input", (false, true) => "the source ends with an I/O error", _ => "reader has already met the source's I/O error" }, what),
+                                replay_value(&case, &taken),
+                                (s.len() * 100) as u64,
+                            );
+                        }
                     }
                 }
-                let case = Case { s, offset, scan, chunk, displaced, complete: false };
+                let case = Case { s, offset, scan, chunk, displaced, complete: false, fault: false };
                 let mut local_err = None;
                 let r = explore(
                     bound,
@@ -561,7 +579,7 @@ pub fn run(tier: Tier, report: &mut Report) {
         (&b"xx x\n"[..], 0, Scan::Fixed(b"xx\r".to_vec()), 2, vec![(1, 2)]),
         (&b"\t\r x\n "[..], 1, Scan::NextNewline, 16384, vec![(2, 6)]),
     ] {
-        let case = Case { s, offset, scan: &scan, chunk, displaced: None, complete: false };
+        let case = Case { s, offset, scan: &scan, chunk, displaced: None, complete: false, fault: false };
         let (taken, _, outcome) = exec(&case, forced);
         let mut v = replay_value(&case, &taken);
         v["returned"] = json!(outcome.result);
@@ -580,7 +598,7 @@ pub fn replay(v: &Value) -> (bool, String) {
         _ => Scan::Fixed(unhex(v["pattern_hex"].as_str().unwrap())),
     };
     let forced: Vec<(u32, u32)> = v["choices"].as_array().unwrap().iter().map(|c| (c[0].as_u64().unwrap() as u32, c[1].as_u64().unwrap() as u32)).collect();
-    let case = Case { s: &s, offset: v["offset"].as_u64().unwrap() as usize, scan: &scan, chunk: v["chunk"].as_u64().unwrap() as usize, displaced: v["displaced"].as_u64().map(|k| k as usize), complete: v["complete"].as_bool().unwrap_or(false) };
+    let case = Case { s: &s, offset: v["offset"].as_u64().unwrap() as usize, scan: &scan, chunk: v["chunk"].as_u64().unwrap() as usize, displaced: v["displaced"].as_u64().map(|k| k as usize), complete: v["complete"].as_bool().unwrap_or(false), fault: v["fault"].as_bool().unwrap_or(false) };
     let (taken, diverged, outcome) = exec(&case, forced.clone());
     let (_, _, outcome2) = exec(&case, forced);
     let mut text = format!(
